@@ -143,6 +143,36 @@ Fixpoint map_items (run_item : dict val -> item_res) (sync_stop : bool) (items :
       end
   end.
 
+(* Graph._get_emit_only_outputs of a nested graph: output names that no node produces as DATA.  A GraphNode's data
+   outputs are its outputs minus the emit-only names of the graph it wraps (GraphNode.data_outputs). *)
+Fixpoint emit_only (d : nat) (ng : ngraph) {struct d} : list name :=
+  match d with
+  | O => []
+  | S d' =>
+      match ng with
+      | NG g _ _ _ _ subs =>
+          let data_of := fun n : node =>
+            match n_kind n with
+            | KGraph =>
+                match dget subs (n_name n) with
+                | Some (NSub inner _ hout cur_out _) =>
+                    List.filter (fun c => negb (pos_in (gn_resolve_original hout c) (emit_only d' inner))) cur_out
+                | None => n_outputs n
+                end
+            | _ => firstn (n_ndata n) (n_outputs n)
+            end in
+          let data := flat_map data_of (g_nodes g) in
+          List.filter (fun o => negb (pos_in o data)) (flat_map n_outputs (g_nodes g))
+      end
+  end.
+
+(* helpers.add_graph_node_emit_signals: when the nested run completed, the wrapper's ordering-only outputs get
+   the emit sentinel (the nested result never carries sentinels) *)
+Definition with_signals (sig : list name) (hout : history) (cur_out : list name) (outs : dict val) : dict val :=
+  let is_sig := fun c => pos_in (gn_resolve_original hout c) sig in
+  List.filter (fun kv => negb (is_sig (fst kv))) outs ++
+  map (fun c => (c, VSentinel)) (List.filter is_sig cur_out).
+
 Fixpoint exec_ng (d : nat) (r : runner) (ft : dict fexp) (gt : dict gate_cfg) (subs : list (name * nsub))
          (n : node) (st : state) (ins : dict val) {struct d} : outcome :=
   match n_kind n with
@@ -153,13 +183,14 @@ Fixpoint exec_ng (d : nat) (r : runner) (ft : dict fexp) (gt : dict gate_cfg) (s
       | S d' =>
           match dget subs (n_name n) with
           | None => ORaise EUnsupported
-          | Some (NSub (NG ig isel _ ift igt isubs) hin hout cur_out mc) =>
+          | Some (NSub (NG ig isel ieps ift igt isubs) hin hout cur_out mc) =>
+              let sig := emit_only d' (NG ig isel ieps ift igt isubs) in
               let inner_inputs := map_inputs_to_params hin ins in
               let run_inner := fun pv => fst (execute (exec_ng d' r ift igt isubs) r default_max_iterations ig pv) in
               match mc with
               | None =>
                   match run_inner inner_inputs with
-                  | RDone s => OOk (gn_map_outputs hout cur_out (filter_outputs ig s isel)) None
+                  | RDone s => OOk (with_signals sig hout cur_out (gn_map_outputs hout cur_out (filter_outputs ig s isel))) None
                   | RFailed e _ => ORaise e
                   | RPaused p _ => OPause (mk_pause (n_name n :: p_node p) (p_out p) (p_value p))
                   end
@@ -172,7 +203,7 @@ Fixpoint exec_ng (d : nat) (r : runner) (ft : dict fexp) (gt : dict gate_cfg) (s
                       let rs := map_items (fun it => rres_to_item ig isel (run_inner it)) stop items in
                       match collect_as_lists hout cur_out (mc_continue cfg) rs with
                       | inl e => ORaise e
-                      | inr outs => OOk outs None
+                      | inr outs => OOk (with_signals sig hout cur_out outs) None
                       end
                   end
               end
